@@ -103,18 +103,25 @@ def docCompared (t : CmpOp) (fields : List FieldE) : List FieldE :=
 def docEqFields {V F} (σ : Env V F) (a b : Val V) (fields : List FieldE) : Bool :=
   (docCompared .partialEq fields).all fun f => docFieldEq (σ f) f.h.cmp (a.field f.index) (b.field f.index)
 
-/-- the first compared field that is not `Some(Equal)` decides -/
-def docPcmpFields {V F} (σ : Env V F) (a b : Val V) (fields : List FieldE) : Option Ordering :=
-  match ((docCompared .partialOrd fields).map fun f =>
-      docFieldPcmp (σ f) f.h.cmp (a.field f.index) (b.field f.index)).find? (· != some .eq) with
+/-- the first result that is not `Equal` decides; `Equal` if there is none -/
+def firstNonEq (l : List Ordering) : Ordering :=
+  match l.find? (· != .eq) with
+  | some o => o
+  | none => .eq
+
+def firstNonEqOpt (l : List (Option Ordering)) : Option Ordering :=
+  match l.find? (· != some .eq) with
   | some o => o
   | none => some .eq
 
+/-- the first compared field that is not `Some(Equal)` decides -/
+def docPcmpFields {V F} (σ : Env V F) (a b : Val V) (fields : List FieldE) : Option Ordering :=
+  firstNonEqOpt ((docCompared .partialOrd fields).map fun f =>
+      docFieldPcmp (σ f) f.h.cmp (a.field f.index) (b.field f.index))
+
 def docCmpFields {V F} (σ : Env V F) (a b : Val V) (fields : List FieldE) : Ordering :=
-  match ((docCompared .ord fields).map fun f =>
-      docFieldCmp (σ f) f.h.cmp (a.field f.index) (b.field f.index)).find? (· != .eq) with
-  | some o => o
-  | none => .eq
+  firstNonEq ((docCompared .ord fields).map fun f =>
+      docFieldCmp (σ f) f.h.cmp (a.field f.index) (b.field f.index))
 
 def docHashFields {V F} (σ : Env V F) (a : Val V) (fields : List FieldE) : List F :=
   (docCompared .hash fields).flatMap fun f => docFieldHash (σ f) f.h.cmp (a.field f.index)
